@@ -6,7 +6,7 @@ from .. import mutate, gen, monitors as M, largefiles
 
 def build(seed):
     rnd = random.Random(seed)
-    tree, seal_ops, fs, pats = mutate.sealed_world(rnd)
+    tree, seal_ops, fs, pats = mutate.sealed_world(rnd, no_dirhash_p=0.3)
     mut_ops, truth = ([], {"altered": set(), "removed": set(), "added": set()}) if rnd.random() < 0.25 else mutate.mutations(rnd, fs, pats)
     if rnd.random() < 0.4:
         seal_ops = seal_ops + [{"op": "verify", "at": ""}]  # the sealed tree is verified once before anything happens to it
@@ -118,6 +118,22 @@ def fixed():
             {"op": "create", "at": "", "h": ["md5"], "now": "2026-03-01 12:00:03"}]
     out.append({"profile": "c03-old-name-again", "root": "root", "tree": tree, "ops": seal + [{"op": "rm", "path": "a.txt"}, {"op": "verify", "at": ""}, {"op": "diff", "at": ""}, {"op": "create", "at": "", "h": ["md5"], "now": "2026-03-01 12:30:00"}],
                 "c03": {"altered": [], "removed": ["a.txt"], "added": [], "patterns": [], "late_pattern": None, "n_seal": 5, "n_mut": 1}})
+    # three levels of histories (root > A > A/B), with and without directory hashes: untouched, and with one recorded
+    # entry of the innermost history removed (a file / an empty folder); asked at every level
+    for nodh in (False, True):
+        for victim in (None, "A/B/c.txt", "A/B/E"):
+            tree = {"A/B/c.txt": "c", "A/B/D/d.txt": "d", "A/B/E/": None, "A/x.txt": "x", "top.txt": "top"}
+            kw = {"n": True} if nodh else {}
+            seal = [dict({"op": "create", "at": at, "h": ["md5"], "now": "2026-03-01 12:00:0%d" % i}, **kw) for i, at in enumerate(["A/B", "A", ""])]
+            if victim == "A/B/E" and nodh:
+                continue  # (without directory hashes an empty folder leaves no record)
+            mut = [] if victim is None else [{"op": "rm", "path": victim}]
+            checks = []
+            for at in ("", "A", "A/B"):
+                checks += [{"op": "verify", "at": at}, {"op": "diff", "at": at}]
+            checks.append(dict({"op": "create", "at": "", "h": ["md5"], "now": "2026-03-01 12:30:00"}, **kw))
+            out.append({"profile": "c03-three-levels", "root": "root", "tree": tree, "ops": seal + mut + checks,
+                        "c03": {"altered": [], "removed": [victim] if victim else [], "added": [], "patterns": [], "late_pattern": None, "n_seal": 3, "n_mut": len(mut)}})
     # names that begin or end with a blank (the report texts cannot be split reliably for such names: judged on exit
     # codes only, which is what the flag says)
     tree = {"notes.txt ": "n", " lead.txt": "l", "Day 1 /x.txt": "x", "plain.txt": "p"}
